@@ -17,11 +17,19 @@ namespace ratio
         else if (r.get_preconditions().empty())
             return r.get_intrinsic_cost();
 
+        // a precondition whose phi is already false cannot be raised by this resolver any more (it has other causes, one of
+        // which has been ruled out): it puts no cost on the resolver..
+        if (std::all_of(r.get_preconditions().cbegin(), r.get_preconditions().cend(), [this](const auto &f)
+                        { return slv.get_sat_core().value(f->get_phi()) == False; }))
+            return r.get_intrinsic_cost();
+
         rational est_cost;
 #ifdef H_MAX
         est_cost = rational::NEGATIVE_INFINITY;
         for (const auto &f : r.get_preconditions())
-            if (!f->is_expanded())
+            if (slv.get_sat_core().value(f->get_phi()) == False)
+                continue;
+            else if (!f->is_expanded())
                 return rational::POSITIVE_INFINITY;
             else // we compute the maximum of the flaws' estimated costs..
             {
@@ -32,7 +40,9 @@ namespace ratio
 #endif
 #ifdef H_ADD
         for (const auto &f : r.get_preconditions())
-            if (!f->is_expanded())
+            if (slv.get_sat_core().value(f->get_phi()) == False)
+                continue;
+            else if (!f->is_expanded())
                 return rational::POSITIVE_INFINITY;
             else // we compute the sum of the flaws' estimated costs..
                 est_cost += f->get_estimated_cost();
